@@ -1,0 +1,46 @@
+//go:build verif
+
+// Package verifhook holds verification-only hook points. With the verif build tag off every function here is an empty,
+// inlinable stub (see off.go).
+package verifhook
+
+import (
+	"sync/atomic"
+	"time"
+)
+
+var yieldFn atomic.Pointer[func(point string)]
+var waitFn atomic.Pointer[func(d time.Duration) time.Duration]
+
+// SetYield installs fn to be called at every Yield point, or removes it when fn is nil.
+func SetYield(fn func(point string)) {
+	if fn == nil {
+		yieldFn.Store(nil)
+		return
+	}
+	yieldFn.Store(&fn)
+}
+
+// SetWaitScale installs fn to rescale retry delay sleeps (the reported delay is not changed), or removes it when nil.
+func SetWaitScale(fn func(d time.Duration) time.Duration) {
+	if fn == nil {
+		waitFn.Store(nil)
+		return
+	}
+	waitFn.Store(&fn)
+}
+
+// Yield marks a point between two statements that are not atomic with respect to each other.
+func Yield(point string) {
+	if fn := yieldFn.Load(); fn != nil {
+		(*fn)(point)
+	}
+}
+
+// Wait returns the duration to actually sleep for a scheduled delay of d.
+func Wait(d time.Duration) time.Duration {
+	if fn := waitFn.Load(); fn != nil {
+		return (*fn)(d)
+	}
+	return d
+}
